@@ -221,16 +221,21 @@ def model_rules(X, Y):
         'let-mul': rule('let-mul', mlet(X, mmul('?a', '?b'), '?t'), mmul(mlet(X, '?a', '?t'), mlet(X, '?b', '?t'))),
         'let-sum': rule('let-sum', mlet(X, msum(Y, '?b'), '?t'), msum(Y, mlet(X, '?b', '?t'))),
         'let-subst': rule('let-subst', mlet(X, '?b', '?t'), subst('?b', mvar(X), '?t')),
+        'let-let': rule('let-let', mlet(Y, mlet(X, '?b', '?u'), '?t'), subst(subst('?b', mvar(X), '?u'), mvar(Y), '?t')),
         'let-const': rule_if('let-const', mlet(X, '?b', '?t'), '?b', 'cond_b_independent_of', X),
     }
 
-def _md(name, nn, term, rules, rounds, note, subst_method=None, extra_terms=(), distinct=None):
+_USES = {'add-comm': 0, 'mul-comm': 0, 'distr': 0, 'factor': 0, 'sum-add': 1, 'sum-pull': 1, 'sum-swap': 2, 'let-var': 1, 'let-other': 2, 'let-add': 1, 'let-mul': 1, 'let-sum': 2,
+         'let-subst': 1, 'let-let': 2, 'let-const': 1}      # how many pattern-slot names a rule writes
+def _md(name, nn, term, rules, rounds, note, subst_method=None, extra_terms=(), distinct=None, ordered=None):
+    npat = max(_USES[r] for r in rules)
     X, Y = nn, nn + 1
     R = model_rules(X, Y)
     first = 1 + len(extra_terms)
     ops = [add(term)] + [add(t) for t in extra_terms] + [rewrite(*[R[r] for r in rules]) for _ in range(rounds)]
-    t = T(name, 'Lm', nn + 2, ops, distinct=(distinct or []) + [[X, Y]], late={X: first, Y: first}, note=note, subst_method=subst_method, model=True)
-    t.light = True
+    t = T(name, 'Lm', nn + npat, ops, distinct=(distinct or []) + ([[X, Y]] if npat == 2 else []), late={n_: first for n_ in (X, Y)[:npat]}, note=note, subst_method=subst_method, model=True)
+    t.light = True; t.ordered = ordered
+    if ordered: t.note += ' [names %s assumed increasing]' % (ordered,)
     return t
 
 MODEL = [
@@ -241,11 +246,23 @@ MODEL = [
     _md('MD3', 3, mlet(2, mmul(mvar(2), madd(mvar(2), mvar(0))), madd(mvar(0), mvar(1))), ['let-subst', 'distr'], 2,
         'the same with the extraction-based substitution method', subst_method='ExtractionSubst', distinct=[[0, 2], [1, 2]]),
     _md('MD4', 3, mmul(mvar(0), msum(2, madd(mvar(2), mvar(1)))), ['sum-pull', 'sum-add', 'distr', 'mul-comm'], 2,
-        'a factor is moved under the summation binder; capture is avoided by slots only', distinct=[[0, 2], [1, 2]]),
+        'a factor is moved under the summation binder; capture is avoided by slots only', distinct=[[0, 1, 2]], ordered=[[0, 1, 2]]),
     _md('MD6', 3, mlet(2, mvar(0), mvar(1)), ['let-const'], 1, 'conditional rule: fires only where the body does not depend on the bound slot',
         extra_terms=(mlet(2, madd(mvar(2), mvar(0)), mvar(1)),), distinct=[[0, 2], [1, 2]]),
 ]
+MODEL += [
+    _md('MD10', 3, msum(2, madd(mmul(madd(mvar(2), mvar(0)), mvar(2)), mmul(madd(mvar(0), mvar(2)), mvar(2)))), ['add-comm'], 1,
+        'two parents that differ only in the argument order of a child that becomes symmetric, each mentioning one of the permuted slots again', distinct=[[0, 2], [1, 2]]),
+    _md('MD11', 4, mlet(3, madd(mvar(3), mlet(2, mvar(0), mvar(1))), mvar(0)), ['let-const', 'let-subst'], 2,
+        'the body class of a let loses a parameter slot in the first round and is substituted into in the second (default method)', distinct=[[0, 1, 2, 3]], ordered=[[0, 1, 2, 3]]),
+    _md('MD12', 4, mlet(2, mlet(3, madd(mvar(3), mvar(2)), mmul(mvar(2), mvar(0))), mvar(1)), ['let-let'], 1,
+        'right side with two nested substitutions b[x := u][y := t]', distinct=[[0, 2, 3], [1, 2, 3]]),
+]
 MODEL_THOROUGH = [
+    _md('MD4x', 3, mmul(mvar(0), msum(2, madd(mvar(2), mvar(1)))), ['sum-pull', 'sum-add', 'distr', 'mul-comm'], 2, 'MD4 with every sharing and order of the names', distinct=[[0, 2], [1, 2]]),
+    _md('MD11x', 4, mlet(3, madd(mvar(3), mlet(2, mvar(0), mvar(1))), mvar(0)), ['let-const', 'let-subst'], 2, 'MD11 with every order of the names', distinct=[[0, 1, 2, 3]]),
+    _md('MD12x', 4, mlet(2, mlet(3, madd(mvar(3), mvar(2)), mmul(mvar(2), mvar(0))), mvar(1)), ['let-let'], 1,
+        'nested substitutions with the extraction-based method', subst_method='ExtractionSubst', distinct=[[0, 2, 3], [1, 2, 3]]),
     _md('MD1x', 3, mlet(2, madd(mvar(2), mvar(0)), mmul(mvar(0), mvar(1))), ['let-add', 'let-var', 'let-other', 'add-comm'], 2, 'MD1 with a second round', distinct=[[0, 2], [1, 2]]),
     _md('MD5', 4, mlet(2, msum(3, mmul(mvar(3), mvar(2))), madd(mvar(0), mvar(1))), ['let-sum', 'let-mul', 'let-var', 'let-other'], 3,
         'let pushed under a summation binder whose body mentions both bound slots', distinct=[[0, 2, 3], [1, 2, 3]]),
